@@ -39,6 +39,10 @@ var obsMu sync.Mutex
 var obsW, archW *bufio.Writer
 var obsAid int
 
+// truncIffOnly: only the C13 clause (Inspect(true) succeeds iff a verifying scan does) is evaluated on the
+// mutation set; no reader observations are written
+var truncIffOnly bool
+
 func openObsFiles(obsPath, archPath string) (func(), error) {
 	f1, err := os.Create(obsPath)
 	if err != nil {
@@ -156,27 +160,42 @@ func runTruncCase(x *acCtx, c *acCase) {
 	obsMu.Lock()
 	obsAid++
 	aid := obsAid
-	ab, _ := json.Marshal(map[string]any{"aid": aid, "a": c.A})
-	archW.Write(ab)
-	archW.WriteByte('\n')
+	if !truncIffOnly {
+		ab, _ := json.Marshal(map[string]any{"aid": aid, "a": c.A})
+		archW.Write(ab)
+		archW.WriteByte('\n')
+	}
 	obsMu.Unlock()
 	var buf bytes.Buffer
 	emit := func(o truncObs) {
+		if truncIffOnly {
+			x.rep.eval(fmt.Sprintf("%d/%s/%d/%s", aid, o.Kind, o.K, o.Reader), true)
+			return
+		}
 		b, _ := json.Marshal(o)
 		buf.Write(b)
 		buf.WriteByte('\n')
 		x.rep.eval(fmt.Sprintf("%d/%s/%d/%s", aid, o.Kind, o.K, o.Reader), true)
 	}
 	readers := truncReaders(c)
+	if truncIffOnly {
+		readers = []string{"br-next", "inspect"}
+	}
 	payloadEnd := c.Layout.DataOff + c.Layout.SectionsEnd
 	iff := func(what string, k int, ends map[string]string) {
 		// C13: Inspect(true) succeeds iff the verifying scan succeeds, for inputs accepted by NewReader
+		if !truncIffOnly {
+			return
+		}
 		i, s := ends["inspect"], ends["br-next"]
 		if i == "ctor-err" {
 			return
 		}
 		if what == "trunc" && c.A.Ver == 2 && c.A.Idx != "none" && i == "err" && s == "eof" {
 			return // the header claims an index that the cut removed: its codec is not readable
+		}
+		if what == "header-flip" && c.A.Ver == 2 && k >= 43 && k < 51 && i == "err" && s == "eof" {
+			return // the IndexOffset field: the header claims an index where no readable codec is (runStatsIndexMoved decides these exactly)
 		}
 		if (i == "eof") != (s == "eof") {
 			x.viol("inspect/iff-scan-mutated", c, fmt.Sprintf("%s at %d: Inspect(true) ends %q but a verifying scan ends %q", what, k, i, s),
@@ -242,9 +261,32 @@ func runTruncCase(x *acCtx, c *acCase) {
 			}
 		}
 	}
+	if truncIffOnly {
+		// every byte of what precedes the first section (pragma, CARv2 header, inner CARv1 header; padding sampled)
+		first := c.Layout.DataOff + c.Layout.SectionsEnd
+		if len(c.Scan) > 0 {
+			first = int(c.Scan[0].Src)
+		}
+		for p := 0; p < first && p < len(file); p++ {
+			if p >= 51 && p < c.Layout.DataOff && p%89 != 0 {
+				continue // data padding
+			}
+			for _, m := range []byte{0x01, 0x02, 0x80, 0xff} {
+				mut := append([]byte{}, file...)
+				mut[p] ^= m
+				ends := map[string]string{}
+				for _, rk := range []string{"inspect", "br-next"} {
+					_, _, end, _ := scanOutcome(c, rk, mut)
+					ends[rk] = end
+					x.rep.eval(fmt.Sprintf("%d/hdrflip/%d/%d/%s", aid, p, m, rk), true)
+				}
+				iff("header-flip", p, ends)
+			}
+		}
+	}
 	// the last section announces more bytes than the archive holds (same prefix width): what is there
 	// still hashes to the CID, but the section is not complete
-	if len(c.Scan) > 0 {
+	if truncIffOnly && len(c.Scan) > 0 {
 		secStart := int(c.Scan[len(c.Scan)-1].Src)
 		if sl, n := getUvarint(file[secStart:]); n > 0 {
 			for _, d := range []uint64{1, 3} {
@@ -263,6 +305,9 @@ func runTruncCase(x *acCtx, c *acCase) {
 				iff("inflate", int(d), ends)
 			}
 		}
+	}
+	if truncIffOnly {
+		return
 	}
 	obsMu.Lock()
 	obsW.Write(buf.Bytes())
